@@ -72,6 +72,29 @@ impl Prop for C07 {
                 }
             }
         }
+        // "chatty" builds: the same insertion orders, but with an empty-query and a non-empty search after every add
+        // (the statement speaks about adding the same records in a different order, not about when searches happen)
+        let nplain = stores.len();
+        let probe = set.queries.iter().find(|q| q.chars().any(|c| c.is_alphanumeric())).cloned().unwrap_or_default();
+        let chatty_perms: Vec<&Vec<usize>> = if cx.tier == Tier::Thorough { self.perms[n].iter().collect() } else { vec![&self.perms[n][0], self.perms[n].last().unwrap()] };
+        for perm in chatty_perms {
+            for &k in &limits {
+                let mut st = St::new(l);
+                st.set_limit(k);
+                let mut ok = true;
+                for i in perm {
+                    if cx.add(&mut st, &recs[*i]).is_err() || st.search("").is_err() || st.search(&probe).is_err() {
+                        ok = false;
+                        break;
+                    }
+                }
+                if !ok {
+                    return;
+                }
+                stores.push((perm.clone(), k, st));
+            }
+        }
+        let _ = nplain;
         // two-record stores, both insertion orders
         let mut pairs: Vec<(usize, usize, St)> = Vec::new();
         for a in 0..n {
@@ -86,7 +109,11 @@ impl Prop for C07 {
         }
         cx.state();
         let nl = limits.len();
-        for q in &set.queries {
+        let mut queries: Vec<String> = set.queries.clone();
+        if !queries.iter().any(|q| q.is_empty()) {
+            queries.insert(0, String::new());
+        }
+        for q in &queries {
             // base = identity insertion order
             let mut base: Vec<Hits> = Vec::new();
             for (pi, (perm, k, st)) in stores.iter_mut().enumerate() {
@@ -110,10 +137,11 @@ impl Prop for C07 {
                 }
                 cx.validated();
                 let want = &base[pi % nl];
+                let chatty = pi >= nplain;
                 if &hits != want {
                     let order: Vec<Rec> = perm.iter().map(|i| recs[*i].clone()).collect();
-                    cx.fail("C07:insertion-order-changes-hit-list", || {
-                        json!({"lang": l.tag(), "ops": ops_json(&order, Some(*k), None, &[q]), "observed": hits, "same_records_inserted_as": recs, "returned": want,
+                    cx.fail(if chatty { "C07:insertion-order-changes-hit-list(searches-between-adds)" } else { "C07:insertion-order-changes-hit-list" }, || {
+                        json!({"lang": l.tag(), "ops": ops_json(&order, Some(*k), None, &[q]), "searches_after_every_add": if chatty { json!(["", probe]) } else { json!(null) }, "observed": hits, "same_records_inserted_as": recs, "returned": want,
                                "unit_test": unit_test_body(l, &order, Some(*k), None, &[q], &format!("    // inserted in the order {:?} the same records return {:?}\n    assert_eq!(hits0, {:?});\n", recs.iter().map(|r| r.0).collect::<Vec<_>>(), want, want))})
                     });
                 } else if hits.len() >= 2 {
@@ -154,7 +182,7 @@ impl Prop for C07 {
         }
     }
     fn rule(&self) -> String {
-        "sweep: every store of 2..3 (thorough: ..5) records with pairwise distinct ratings over the menus x ALL insertion permutations x limits {1, 2, |store|+2} with |store| <= 10*limit x every query: the hit list must be identical for every permutation; for every ordered pair of hits of the full store the two-record store, in both insertion orders, must rank them the same way. Non-trivial = a permuted store returning the same list of at least two hits.".into()
+        "sweep: every store of 2..3 (thorough: ..5) records with pairwise distinct ratings over the menus x ALL insertion permutations (each built plainly; the identity and the reversed order - thorough: every order - also built with an empty and a non-empty search after every add) x limits {1, 2, |store|+2} with |store| <= 10*limit x every query: the hit list must be identical for every permutation; for every ordered pair of hits of the full store the two-record store, in both insertion orders, must rank them the same way. Non-trivial = a permuted store returning the same list of at least two hits.".into()
     }
     fn assumptions(&self) -> Vec<String> {
         vec![
